@@ -202,8 +202,21 @@ def run(chk, repo, tier):
     fc, cp, _ = analyse(repo, 'zernike.zernike_coordinates', config={'shift': NONE},
                         facts={cshape.single_atom(): cpair})
     rets_c = returns(cp)
-    if len(rets_c) != 1:
-        raise AnalysisError('zernike_coordinates: default-shift configuration does not fold to one path')
+    if not rets_c:
+        raise AnalysisError('zernike_coordinates: default-shift configuration has no returning path')
+    # a test on the computed shift (a tolerance, a rounding guard) splits the default configuration into several paths: the
+    # origin has to sit on the centroid on each of them
+    for q in rets_c[1:]:
+        qm, qc = q.calls('helper.mesh'), q.calls('util.centroid')
+        if len(qm) != 1 or len(qc) != 1:
+            continue
+        qsh = qm[0].bound.get('shift')
+        for ax in (0, 1):
+            got = qsh.items[ax] if isinstance(qsh, Tup) and len(qsh) == 2 else None
+            want = nf.index(qc[0].result, C(ax)) - HALF(cpair.items[ax])
+            chk.ob('C11-d', 'N-origin', fc.key, f'axis {ax}: mesh origin floor(n/2) + shift = centroid [{conds_str(q)[:70]}]',
+                   got is not None and got == want,
+                   f'shift[{ax}] = {fmt(got)}; mesh puts its origin at floor(n/2), so the centroid needs {fmt(want)}', fc.loc(qm[0].node))
     p = rets_c[0]
     mesh = p.calls('helper.mesh')
     cen = p.calls('util.centroid')
